@@ -551,4 +551,244 @@ theorem unflatten_refines (store : List (List V × Nest β)) (vals : List (List 
 
 end unflat
 
+
+/-! ## (d) `process_results` -/
+
+theorem get_resultsMapped (f : List Nat → β) (locs : List (List Nat)) (p : List Nat) :
+    Py.dictGet (Py.dictMapVal Nest.leaf (Py.dictOfList (locs.zip (locs.map f)))) p
+      = if p ∈ locs then some (.leaf (f p)) else none := by
+  rw [get_mapVal, Py.dictOfList, get_ofList_fn f]
+  · have : (locs.zip (locs.map f)).map Prod.fst = locs := by
+      rw [List.map_fst_zip]; simp
+    rw [this]
+    by_cases h : p ∈ locs <;> simp [h, dictGet_nil]
+  · intro e he
+    have := List.of_mem_zip he
+    induction locs with
+    | nil => simp at he
+    | cons a t ih =>
+      simp only [List.map_cons, List.zip_cons_cons, List.mem_cons] at he
+      rcases he with rfl | he
+      · rfl
+      · exact ih he (List.of_mem_zip he)
+
+theorem lookup_table (f : List Nat → β) (locs : List (List Nat)) (p : List Nat) :
+    lookup (locs.zip (locs.map f)) p = if p ∈ locs then some (f p) else none := by
+  by_cases h : p ∈ locs
+  · rw [lookup_zip_map f locs p h, if_pos h]
+  · rw [lookup_zip_map_none f locs p h, if_neg h]
+
+/-- `flat=True`: `tuple(r)` -/
+theorem coreProcess_flat (pyNone : β) (nl : β → β) (cg : Bool) (locs cv acv : List (List Nat)) (r : List β) :
+    Gen.coreProcess pyNone nl true cg locs cv acv r = .ok (.flat r) := by
+  simp only [Gen.coreProcess, Gen.Default.coreProcess]
+  rfl
+
+/-- **no cases**: `_unflatten(dict(zip(locs, r)), combo_values)` is the model's `processNested` (no slot is missing,
+so neither Python's `None` default nor the model's placeholder shows) -/
+theorem coreProcess_grid (pyNone : β) (nl : β → β) (s : Sweep) (hg : s.caseRows = none)
+    (hnd : ∀ vs ∈ s.comboVals, vs.Nodup) (f : List Nat → β) (ph : β) (acv : List (List Nat)) :
+    Gen.coreProcess pyNone nl false false s.locs s.comboVals acv (s.locs.map f)
+      = .ok (.nested (processNested s (s.locs.map f) ph)) := by
+  have hlocs : s.locs = product s.comboVals := locs_grid s hg
+  simp only [Gen.coreProcess, Gen.Default.coreProcess, Bool.false_eq_true, if_false, Bool.not_false, if_true]
+  rw [unflatten_refines _ _ _ hnd]
+  · simp only [processNested, hg, unflatten_eq]
+    congr 2
+    apply nest_congr
+    intro p hp
+    rw [get_resultsMapped, lookup_table, hlocs, if_pos hp, if_pos hp]
+    rfl
+  · intro h0
+    refine ⟨.leaf (f []), ?_⟩
+    rw [get_resultsMapped, hlocs, h0]
+    simp [product]
+
+theorem caseCoords_nodup (s : Sweep) : ∀ vs ∈ s.caseCoords, vs.Nodup := by
+  intro vs h
+  unfold Sweep.caseCoords at h
+  split at h
+  · simp at h
+  · simp only [List.mem_map] at h
+    obtain ⟨j, _, rfl⟩ := h
+    exact (sortedSet_spec _).2.imp (fun h => Nat.ne_of_lt h)
+
+/-- **cases**: `all_nan = nan_like_result(r[0])` and `_unflatten(dict(zip(locs, r)), all_combo_values, all_nan)` is the
+model's `processNested` with the placeholder made from the first result -/
+theorem coreProcess_cases (pyNone : β) (nl : β → β) (s : Sweep) (rows : List (List Nat)) (hr : s.caseRows = some rows)
+    (hnd : ∀ vs ∈ s.comboVals, vs.Nodup) (f : List Nat → β) (first : List Nat) (rest : List (List Nat))
+    (hne : s.locs = first :: rest) (hc : s.coords = [] → [] ∈ s.locs) :
+    Gen.coreProcess pyNone nl false true s.locs s.comboVals s.coords (s.locs.map f)
+      = .ok (.nested (processNested s (s.locs.map f) (nl (f first)))) := by
+  have hnd' : ∀ vs ∈ s.coords, vs.Nodup := by
+    intro vs h
+    rcases List.mem_append.mp h with h | h
+    · exact caseCoords_nodup s vs h
+    · exact hnd vs h
+  have h0 : (s.locs.map f)[0]? = some (f first) := by rw [hne]; rfl
+  simp only [Gen.coreProcess, Gen.Default.coreProcess, Bool.false_eq_true, if_false, Bool.not_true, h0]
+  rw [unflatten_refines _ _ _ hnd']
+  · simp only [processNested, hr, unflatten_eq]
+    congr 2
+    apply nest_congr
+    intro p _
+    rw [get_resultsMapped, lookup_table]
+    by_cases h : p ∈ s.locs <;> simp [h]
+  · intro h0
+    refine ⟨.leaf (f []), ?_⟩
+    rw [get_resultsMapped, if_pos (hc h0)]
+
+
+/-! ## the translated slices composed -/
+
+/-- the value of a translated helper that cannot raise -/
+def okOr {ε γ : Type} (x : Except ε (List γ)) : List γ := match x with | .ok r => r | .error _ => []
+
+/-- the translated slices composed the way `combo_runner_core` composes them (`Gen.coreGlue`: nothing in between
+rebinds what flows from one to the next, and `process_results(results_linear)` is what is returned), for a swept
+function `g` of keyword arguments and one output.  The pool computes `g` too (`submit = g`, `_get_result = id`).
+`s.coords` — the sorted union of the case coordinates — is the hand-written part that remains. -/
+def translated (g : List (String × Nat) → β) (nl : β → β) (pyNone : β) (leR : β → β → Bool) (s : Sweep)
+    (consts : List (String × Nat)) (st : Strategy) (flat : Bool) :
+    Except PyErr (List (List (String × Nat)) × CoreOut β) :=
+  match Gen.coreEnum s.caseArgs s.comboArgs (s.caseRows.getD [[]]) s.comboVals consts with
+  | .error e => .error e
+  | .ok (_, locs, settings) =>
+    match Gen.coreRun leR ((stShuffle st).getD []) (stShuffle st).isSome (stExec st) false
+        (fun l => okOr (Gen.coreRunSeq g l)) (fun l => okOr (Gen.coreRunExec g id l)) settings with
+    | .error e => .error e
+    | .ok (ran, results) =>
+      match Gen.coreProcess pyNone nl flat s.caseRows.isSome locs s.comboVals s.coords results with
+      | .error e => .error e
+      | .ok out => .ok (ran, out)
+
+theorem coreGlue_holds : Gen.coreGlue = true := by
+  simp only [Gen.coreGlue, Gen.Default.coreGlue]
+
+/-- **the model is the translated source**: on a well-formed request with something to run, the composed translated
+slices succeed; the list of keyword arguments handed to the runner is the model's enumeration (permuted by `σ` under
+`shuffle`), each being `dict(zip(fn_args, loc))` + constants; and what is returned is what `Core.core` returns for the
+function `loc ↦ g(kwargs of loc)` — flat or nested -/
+theorem translated_eq_core (g : List (String × Nat) → β) (nl : β → β) (pyNone : β) (leR : β → β → Bool) (s : Sweep)
+    (consts : List (String × Nat)) (st : Strategy) (flat : Bool)
+    (hov : s.overlap = false) (hwf : st.WF s.locs.length) (hnd : ∀ vs ∈ s.comboVals, vs.Nodup)
+    (first : List Nat) (rest : List (List Nat)) (hne : s.locs = first :: rest) (hc : s.coords = [] → [] ∈ s.locs) :
+    ∃ r, core (fun loc => g (mkKws s.fnArgs consts loc)) nl s st = .ok r ∧ r.log ~ s.locs ∧
+      translated g nl pyNone leR s consts st flat
+        = .ok ((match stShuffle st with | none => s.locs | some σ => applyPerm σ s.locs []).map (mkKws s.fnArgs consts),
+               if flat then .flat r.flat else .nested r.nested) := by
+  obtain ⟨r, h1, h2, h3, h4⟩ := core_ok (fun loc => g (mkKws s.fnArgs consts loc)) nl s st hov hwf
+  refine ⟨r, h1, h2, ?_⟩
+  have hseq : (fun l => okOr (Gen.coreRunSeq g l)) = List.map g := by
+    funext l; rw [coreRunSeq_refines]; rfl
+  have hexe : (fun l => okOr (Gen.coreRunExec g id l)) = List.map g := by
+    funext l; rw [coreRunExec_refines]; rfl
+  have hne' : s.locs.map (mkKws s.fnArgs consts) ≠ [] := by rw [hne]; simp
+  have hlen : (s.locs.map (mkKws s.fnArgs consts)).length = s.locs.length := by simp
+  -- the run
+  have hrun : Gen.coreRun leR ((stShuffle st).getD []) (stShuffle st).isSome (stExec st) false
+        (List.map g) (List.map g) (s.locs.map (mkKws s.fnArgs consts))
+      = .ok ((match stShuffle st with | none => s.locs | some σ => applyPerm σ s.locs []).map (mkKws s.fnArgs consts),
+             s.locs.map fun loc => g (mkKws s.fnArgs consts loc)) := by
+    have hr : ∀ σ : List Nat, σ ~ List.range s.locs.length →
+        Gen.coreRun leR σ true (stExec st) false (List.map g) (List.map g) (s.locs.map (mkKws s.fnArgs consts))
+          = .ok ((applyPerm σ s.locs []).map (mkKws s.fnArgs consts), s.locs.map fun loc => g (mkKws s.fnArgs consts loc)) := by
+      intro σ h
+      have hin : ∀ i ∈ σ, i < (s.locs.map (mkKws s.fnArgs consts)).length := by
+        intro i hi; rw [hlen]; simpa using h.mem_iff.mp hi
+      have hσne : σ ≠ [] := by
+        intro h0; subst h0
+        have := h.length_eq; simp [hne] at this
+      rw [coreRun_shuffled leR g _ σ (mkKws s.fnArgs consts []) (stExec st) false hin hσne,
+        runShuffled_eq g _ σ _ (by rw [hlen]; exact h)]
+      simp [applyPerm, List.getD_eq_getElem?_getD, List.getElem?_map]
+    cases st with
+    | seq => simp [stShuffle, stExec, coreRun_plain]
+    | executor π => simp [stShuffle, stExec, coreRun_plain]
+    | shuffled σ => simpa [stShuffle] using hr σ hwf
+    | shuffledExecutor σ π => simpa [stShuffle] using hr σ hwf.1
+  have hfirst : (match s.locs with | [] => g (mkKws s.fnArgs consts []) | l :: _ => g (mkKws s.fnArgs consts l))
+      = g (mkKws s.fnArgs consts first) := by rw [hne]
+  simp only [translated, coreEnum_refines, hov, Bool.false_eq_true, if_false, hseq, hexe, hrun]
+  cases flat with
+  | true => simp only [coreProcess_flat, h3, if_true]
+  | false =>
+    have h4' : r.nested = processNested s (s.locs.map fun loc => g (mkKws s.fnArgs consts loc))
+        (nl (g (mkKws s.fnArgs consts first))) := by
+      rw [h4]; congr 2
+    rw [h4']
+    cases hr : s.caseRows with
+    | none =>
+      have := coreProcess_grid pyNone nl s hr hnd (fun loc => g (mkKws s.fnArgs consts loc))
+        (nl (g (mkKws s.fnArgs consts first))) s.coords
+      simp only [Option.isSome_none, this, Bool.false_eq_true, if_false]
+    | some rows =>
+      have := coreProcess_cases pyNone nl s rows hr hnd (fun loc => g (mkKws s.fnArgs consts loc)) first rest hne hc
+      simp only [Option.isSome_some, this, Bool.false_eq_true, if_false]
+
+/-- **C01 on the translated source (own slot)**: for a grid without repeated values, under every strategy, the nested
+tuple returned by the composed translated slices holds at index path `idx` the value of `g` on the keyword arguments
+of precisely the combination `idx` selects; and the runner was handed a permutation of all combinations -/
+theorem c01_slot_src (g : List (String × Nat) → β) (nl : β → β) (pyNone : β) (leR : β → β → Bool) (s : Sweep)
+    (consts : List (String × Nat)) (st : Strategy)
+    (hg : s.caseRows = none) (hov : s.overlap = false) (hwf : st.WF s.locs.length) (hnd : ∀ vs ∈ s.comboVals, vs.Nodup)
+    (idx p : List Nat) (hp : pick s.comboVals idx = some p) :
+    ∃ ran out, translated g nl pyNone leR s consts st false = .ok (ran, .nested out) ∧
+      ran ~ (product s.comboVals).map (mkKws s.fnArgs consts) ∧
+      out.get idx = some (.leaf (g (mkKws s.fnArgs consts p))) := by
+  have hmem : p ∈ s.locs := by rw [locs_grid s hg]; exact mem_product_of_pick _ _ _ hp
+  obtain ⟨first, rest, hne⟩ : ∃ first rest, s.locs = first :: rest := by
+    cases h : s.locs with
+    | nil => rw [h] at hmem; simp at hmem
+    | cons a t => exact ⟨a, t, rfl⟩
+  have hc : s.coords = [] → [] ∈ s.locs := by
+    intro h
+    have hcv : s.comboVals = [] := by
+      have : s.caseCoords ++ s.comboVals = [] := h
+      exact (List.append_eq_nil_iff.mp this).2
+    rw [locs_grid s hg, hcv]; simp [product]
+  obtain ⟨r, h1, _, h3⟩ := translated_eq_core g nl pyNone leR s consts st false hov hwf hnd first rest hne hc
+  obtain ⟨r', h1', h2'⟩ := c01_slot (fun loc => g (mkKws s.fnArgs consts loc)) nl s st hg hov hwf idx p hp
+  rw [h1] at h1'; cases h1'
+  refine ⟨_, r.nested, by simpa using h3, ?_, h2'⟩
+  rw [← locs_grid s hg]
+  apply List.Perm.map
+  cases st with
+  | seq => exact List.Perm.refl _
+  | executor π => exact List.Perm.refl _
+  | shuffled σ => exact applyPerm_perm σ s.locs [] hwf
+  | shuffledExecutor σ π => exact applyPerm_perm σ s.locs [] hwf.1
+
+/-- **C02 on the translated source (own slot or placeholder)** -/
+theorem c02_slot_src [DecidableEq β] (g : List (String × Nat) → β) (nl : β → β) (pyNone : β) (leR : β → β → Bool)
+    (s : Sweep) (consts : List (String × Nat)) (st : Strategy) (rows : List (List Nat)) (hr : s.caseRows = some rows)
+    (hov : s.overlap = false) (hwf : st.WF s.locs.length) (hnd : ∀ vs ∈ s.comboVals, vs.Nodup)
+    (first : List Nat) (rest : List (List Nat)) (hne : s.locs = first :: rest) (hc : s.coords = [] → [] ∈ s.locs)
+    (idx p : List Nat) (hp : pick s.coords idx = some p) :
+    ∃ ran out, translated g nl pyNone leR s consts st false = .ok (ran, .nested out) ∧
+      ran ~ (rows.flatMap fun cp => (product s.comboVals).map (cp ++ ·)).map (mkKws s.fnArgs consts) ∧
+      out.get idx = some (.leaf (if p ∈ s.locs then g (mkKws s.fnArgs consts p)
+                                 else nl (g (mkKws s.fnArgs consts first)))) := by
+  obtain ⟨r, h1, _, h3⟩ := translated_eq_core g nl pyNone leR s consts st false hov hwf hnd first rest hne hc
+  obtain ⟨r', h1', h2'⟩ := c02_slot (fun loc => g (mkKws s.fnArgs consts loc)) nl s st rows hr hov hwf first rest hne idx p hp
+  rw [h1] at h1'; cases h1'
+  refine ⟨_, r.nested, by simpa using h3, ?_, h2'⟩
+  have : s.locs = rows.flatMap (fun cp => (product s.comboVals).map (cp ++ ·)) := by simp [Sweep.locs, hr]
+  rw [← this]
+  apply List.Perm.map
+  cases st with
+  | seq => exact List.Perm.refl _
+  | executor π => exact List.Perm.refl _
+  | shuffled σ => exact applyPerm_perm σ s.locs [] hwf
+  | shuffledExecutor σ π => exact applyPerm_perm σ s.locs [] hwf.1
+
+/-! Non-vacuity: the 2×3 grid of `Props/C01.lean` under its shuffle, the sparse cases of `Props/C02.lean`. -/
+example : (translated (β := Nat) (fun kws => (kws.map Prod.snd).foldl (fun a x => 10 * a + x) 0) id 0 (fun _ _ => true)
+    exSweep [] .seq true).toOption.map (·.2)
+      = some (.flat [0, 1, 2, 10, 11, 12]) := by rfl
+example : ∀ vs ∈ exSweep.comboVals, vs.Nodup := by decide
+example : exCases.locs = [2, 0, 0] :: [[2, 0, 1], [0, 1, 0], [0, 1, 1]] ∧ exCases.coords ≠ [] := by decide
+example : (Gen.unflatten [([0], Nest.leaf 7), ([2], .leaf 9)] [[0, 1, 2]] (.leaf 0)).toOption.bind (Nest.get [1])
+    = some (.leaf 0) := by rfl
+
 end CoreRefine
